@@ -878,6 +878,19 @@ package scheduler
 //@   ensures [C05 signalled_running_step_is_marked_canceled] n.data.State.Status ==
 //@        ite(old(n.data.State.Status) == NodeStatusRunning, NodeStatusCancel, old(n.data.State.Status))
 
+// A step is stopping while it is marked canceled, has a process handle and has not finished: its process may still be
+// alive (it may be ignoring the signal).  Signal's caller is told "done" only when no step is running or stopping, so
+// that the agent's escalation to SIGKILL is still reached (repo fix 3448ebc).
+//@ pred stopping(n *Node) = n.data.State.Status == NodeStatusCancel && n.data.State.FinishedAt == 0 && n.cmd != nil
+//@ fn (*Node).isStopping(n) (r)
+//@   props C05
+//@   ensures [C05 stopping_is_canceled_unfinished_with_a_process] r <==> stopping(n)
+//@ fn (*ExecutionGraph).isStopping(g) (r)
+//@   props C05
+//@   requires nodes_wf(g)
+//@   ensures [C05 some_step_is_stopping] r <==> (exists i int :: 0 <= i && i < len(g.nodes) && stopping(g.nodes[i]))
+//@   loop 0 invariant forall i int :: 0 <= i && i <= idx ==> !stopping(g.nodes[i])
+
 // Scheduler.Signal: the stop is registered (canceled flag), and every step that does not repeat is handed the signal
 // (so every live one receives it, Node.signal); a repeating step is not signalled — it finishes its iteration and the
 // worker does not start another one (worker contract).  With a done channel it waits until nothing runs any more.
@@ -886,6 +899,10 @@ package scheduler
 //@   requires nodes_wf(g)
 //@   modifies sc.canceled, heap(Node.data.State.Status), heap(alloc), ghost kill.count, ghost kill.exec, ghost kill.sig, ghost chk.fresh
 //@   ensures [C05 stop_is_registered] sc.canceled == 1
+//@   ensures [C05 done_only_when_no_step_is_running_or_stopping] done != nil ==>
+//@        (forall i int :: 0 <= i && i < len(g.nodes) ==> (g.nodes[i].data.State.Status != NodeStatusRunning && !stopping(g.nodes[i])))
+//@   expect calls (*ExecutionGraph).isStopping >= 1
+//@   expect calls (*ExecutionGraph).IsRunning >= 1
 //@   ensures [C05 signal_changes_running_to_canceled_only] forall i int :: 0 <= i && i < len(g.nodes) ==>
 //@        (g.nodes[i].data.State.Status == old(g.nodes[i].data.State.Status) ||
 //@         (old(g.nodes[i].data.State.Status) == NodeStatusRunning && g.nodes[i].data.State.Status == NodeStatusCancel && !g.nodes[i].data.Step.RepeatPolicy.Repeat))
